@@ -477,3 +477,56 @@ Proof.
   - eexists. vm_compute. reflexivity.
   - vm_compute. discriminate.
 Qed.
+
+(* ================================================================================================== *)
+(* non-vacuity examples added after the reviewer's audit (Properties/C13_nv.v, 2026-10-01)         *)
+(* ================================================================================================== *)
+
+(* ==== non-vacuity instances obtained BY APPLYING the theorems above (added after review) ================== *)
+
+(* C13_read_pure / C13_write_target / C13_no_clobber on the small file tree: reading an existing and a missing file; a
+   write that replaces a file and one that creates a file in another directory; a failing write to an existing file *)
+Example C13_read_pure_nonvacuous :
+  fs_step C13_ex.fs0 (FRead C13_ex.pa) = C13_ex.fs0 /\ fs_step C13_ex.fs0 (FRead C13_ex.pc) = C13_ex.fs0 /\
+  fs_get C13_ex.pa C13_ex.fs0 = Some (of_string "x 1;") /\ fs_get C13_ex.pc C13_ex.fs0 = None.
+Proof. refine (conj (C13_read_pure _ _) (conj (C13_read_pure _ _) _)). split; vm_compute; reflexivity. Qed.
+
+Example C13_write_target_nonvacuous :
+  fs_get C13_ex.pb (fs_step C13_ex.fs0 (FWrite C13_ex.pb (Ok (of_string "x 1; y 2;")))) = Some (of_string "x 1; y 2;") /\
+  fs_get C13_ex.pc (fs_step C13_ex.fs0 (FWrite C13_ex.pc (Ok (of_string "new file")))) = Some (of_string "new file") /\
+  fs_get C13_ex.pb C13_ex.fs0 = Some (of_string "old") /\ fs_get C13_ex.pc C13_ex.fs0 = None /\
+  fs_step C13_ex.fs0 (FWrite C13_ex.pc (Ok (of_string "new file"))) <> C13_ex.fs0.
+Proof.
+  refine (conj (C13_write_target _ _ _) (conj (C13_write_target _ _ _) _)).
+  split; [vm_compute; reflexivity|]. split; [vm_compute; reflexivity|]. vm_compute. discriminate.
+Qed.
+
+Example C13_no_clobber_nonvacuous :
+  fs_step C13_ex.fs0 (FWrite C13_ex.pb (Raise E_Value)) = C13_ex.fs0 /\
+  fs_step C13_ex.fs0 (FWrite C13_ex.pc (Raise E_Recursion)) = C13_ex.fs0 /\
+  fs_get C13_ex.pb (fs_step C13_ex.fs0 (FWrite C13_ex.pb (Raise E_Value))) = Some (of_string "old").
+Proof.
+  refine (conj (C13_no_clobber _ _ _) (conj (C13_no_clobber _ _ _) _)). rewrite C13_no_clobber. vm_compute. reflexivity.
+Qed.
+
+(* C13_parse_model_ext: the two runs (Foam output, C++ output) of the scoped parse of d.dict, the counter at its last
+   six-digit value; the premises are computed, the shapes of the target names come from the theorem *)
+Example C13_parse_model_ext_applied :
+  exists t1 txt1 k1 t2 txt2 k2,
+    parse_model C13_wf_ex.fs C13_wf_ex.src true false false true C13_wf_ex.scope (Some (of_string "foam")) 999999 = Some (Ok (t1, txt1, k1)) /\
+    parse_model C13_wf_ex.fs C13_wf_ex.src true false false true C13_wf_ex.scope (Some (of_string "cpp")) 999999 = Some (Ok (t2, txt2, k2)) /\
+    (exists base, t1 = base ++ of_string ".foam") /\
+    (exists stem, t2 = dir_of C13_wf_ex.src ++ [c_slash] ++ w_parsed ++ [c_dot] ++ stem ++ scope_suffix C13_wf_ex.scope) /\
+    t1 = of_string "/r/parsed.d_a_b.foam" /\ t2 = of_string "/r/parsed.d_a_b" /\ k1 = 0%Z /\
+    scope_suffix C13_wf_ex.scope = of_string "_a_b".
+Proof.
+  destruct (parse_model C13_wf_ex.fs C13_wf_ex.src true false false true C13_wf_ex.scope (Some (of_string "foam")) 999999)
+    as [[[[t1 txt1] k1]|e]|] eqn:E1; [|vm_compute in E1; discriminate E1|vm_compute in E1; discriminate E1].
+  destruct (parse_model C13_wf_ex.fs C13_wf_ex.src true false false true C13_wf_ex.scope (Some (of_string "cpp")) 999999)
+    as [[[[t2 txt2] k2]|e]|] eqn:E2; [|vm_compute in E2; discriminate E2|vm_compute in E2; discriminate E2].
+  exists t1, txt1, k1, t2, txt2, k2. split; [reflexivity|]. split; [reflexivity|].
+  split; [exact (proj1 (C13_parse_model_ext _ _ _ _ _ _ _ _ _ _ _) E1)|].
+  split; [exact (proj2 (C13_parse_model_ext _ _ _ _ _ _ _ _ _ _ _) E2)|].
+  vm_compute in E1. injection E1 as <- _ <-. vm_compute in E2. injection E2 as <- _ _.
+  repeat split; vm_compute; reflexivity.
+Qed.
